@@ -23,6 +23,10 @@ static bool thread_data_restore_state(thread_data *self, thread_schedule_state n
 /* ---- environment of do_yield ---- */
 static size_t g_local_worker;             /* pika::get_local_worker_thread_num() of the worker running T */
 static size_t get_local_worker_thread_num(void) { return g_local_worker; }
+/* pika::get_worker_thread_num(): the GLOBAL number of the OS thread (pool offset + local number): a different value whenever
+ * the task's pool is not the first one */
+static size_t g_global_worker;
+static size_t get_worker_thread_num(void) { return g_global_worker; }
 static long g_lw_sets;                    /* set_last_worker_thread_num calls (saturating at 2) */
 static void thread_data_set_last_worker_thread_num(thread_data *self, size_t n) { self->last_worker_thread_num_ = n; if (g_lw_sets < 2) g_lw_sets++; }
 static int vx_uncaught_exceptions(void) { return 0; }   /* precondition of do_yield: not called while an exception is being handled */
@@ -147,7 +151,7 @@ void harness(void)
   g_td.current_state_.st = nondet_i8();
   g_td.current_state_.ex = nondet_i8();
   g_td.current_state_.tg = nondet_i64();
-  g_td.last_worker_thread_num_ = nondet_size();
+  g_td.last_worker_thread_num_ = nondet_size(); g_global_worker = nondet_size();
   g_td.scheduler_base_ = &g_sched_obj;
   g_td.priority_ = nondet_i8();
   g_local_worker = nondet_size();
